@@ -34,7 +34,7 @@ pub fn exports() -> Vec<(String, Variable)> {
     out
 }
 
-fn call(f: &Arc<Function>, args: Vec<Variable>) -> Result<Variable, String> {
+pub(crate) fn call(f: &Arc<Function>, args: Vec<Variable>) -> Result<Variable, String> {
     verif::set_fuel(Some(core::QUICK_FUEL), Some(core::DEPTH));
     let r = match guard(|| f.clone().create_call(args)) {
         Ok(Ok(code)) => match guard(|| code.exec()) {
@@ -343,48 +343,78 @@ const EXTRA_ARGS: &[&str] = &[
 ];
 
 #[derive(Default)]
-struct Acc {
-    calls: u64,
-    with_reference: u64,
-    outcomes: BTreeSet<String>,
-    violations: Vec<Violation>,
-    per_fn: BTreeMap<String, u64>,
+pub(crate) struct Acc {
+    pub calls: u64,
+    pub ladder_calls: u64,
+    pub with_reference: u64,
+    pub outcomes: BTreeSet<String>,
+    pub violations: Vec<Violation>,
+    pub per_fn: BTreeMap<String, u64>,
+}
+
+
+pub fn int_ladder() -> Vec<i64> {
+    let mut out = std::collections::BTreeSet::new();
+    for k in 0..64u32 {
+        let b = 1i64.wrapping_shl(k);
+        for v in [b.wrapping_sub(1), b, b.wrapping_add(1)] {
+            out.insert(v);
+            out.insert(v.wrapping_neg());
+        }
+    }
+    out.into_iter().collect()
+}
+
+/// +-2^k, the neighbouring representable values and the half-way points for k = -3..64, zeros,
+/// infinities, NaN, the smallest subnormal and the largest finite value
+pub fn float_ladder() -> Vec<f64> {
+    let mut out: Vec<f64> = vec![0.0, -0.0, f64::INFINITY, f64::NEG_INFINITY, f64::NAN, f64::MIN_POSITIVE, 5e-324, f64::MAX, f64::MIN];
+    for k in -3..=64 {
+        let b = 2f64.powi(k);
+        for v in [b, f64::from_bits(b.to_bits() - 1), f64::from_bits(b.to_bits() + 1), b + 0.5, b - 0.5, b * 1.5] {
+            out.push(v);
+            out.push(-v);
+        }
+    }
+    out
+}
+
+fn judge_call(acc: &mut Acc, path: &str, f: &Arc<Function>, rt: &Type, rty: &Ty, args: Vec<Variable>, label: String) {
+    acc.calls += 1;
+    *acc.per_fn.entry(path.to_string()).or_insert(0) += 1;
+    let got = call(f, args.clone());
+    match &got {
+        Ok(v) => {
+            if !belongs(v, rty) || !v.as_type().matches(&*rt) {
+                acc.violations.push(Violation {
+                    sig: format!("C18|result-not-in-declared-type|{path}"),
+                    detail: json!({"kind": "stdlib", "call": label, "declared_result": rty.print(), "observed": canon_typed(v)}),
+                });
+            }
+            acc.outcomes.insert(canon(v).chars().take(12).collect());
+            if let Some(want) = reference(path, &args) {
+                acc.with_reference += 1;
+                if canon(v) != want {
+                    acc.violations.push(Violation {
+                        sig: format!("C18|wrong-result|{path}"),
+                        detail: json!({"kind": "stdlib", "call": label, "expected": want, "observed": canon(v)}),
+                    });
+                }
+            }
+        }
+        Err(e) if e == "exhausted" => {}
+        Err(e) => acc.violations.push(Violation {
+            sig: format!("C18|call-failed|{path}|{}", e.chars().take(60).collect::<String>()),
+            detail: json!({"kind": "stdlib", "call": label, "observed": e}),
+        }),
+    }
 }
 
 const SKIP_SWEEP: &[&str] = &["std.fs.", "std.io.cgetline"];
 
-pub fn run(tier: &str) -> i32 {
-    let thorough = tier == "thorough";
-    let mut report = Report::new("C18", tier);
-    let mut samples = Samples::new(10);
-    crate::warm::warm();
-    let ex = exports();
-    let n_exports = ex.len();
-    // constants have their declared types and values
-    for (path, v) in &ex {
-        let want = match path.as_str() {
-            "std.math.MIN_INT" => Some(i64::MIN.to_string()),
-            "std.math.MAX_INT" => Some(i64::MAX.to_string()),
-            "std.math.E" => Some(float_canon(std::f64::consts::E)),
-            "std.math.PI" => Some(float_canon(std::f64::consts::PI)),
-            _ => None,
-        };
-        match (v, want) {
-            (Variable::Function(_), _) => {}
-            (other, Some(w)) => {
-                if canon(other) != w {
-                    report.violation(Violation {
-                        sig: format!("C18|constant-value|{path}"),
-                        detail: json!({"kind": "stdlib", "export": path, "expected": w, "observed": canon(other)}),
-                    });
-                }
-            }
-            (other, None) => report.violation(Violation {
-                sig: format!("C18|unexpected-non-function-export|{path}"),
-                detail: json!({"kind": "stdlib", "export": path, "value": canon_typed(other)}),
-            }),
-        }
-    }
+/// every exported function (except the fs / console ones) over the palette values its parameter
+/// types admit and the int ladder; used by C18 (results) and C01 (results inhabit the declared type)
+pub(crate) fn sweep(ex: &[(String, Variable)], thorough: bool) -> (Acc, usize) {
     let fns: Vec<(String, Arc<Function>)> = ex
         .iter()
         .filter_map(|(p, v)| if let Variable::Function(f) = v { Some((p.clone(), f.clone())) } else { None })
@@ -451,34 +481,44 @@ pub fn run(tier: &str) -> i32 {
                 if !ok {
                     continue;
                 }
-                acc.calls += 1;
-                *acc.per_fn.entry(path.clone()).or_insert(0) += 1;
-                let got = call(f, args.clone());
                 let label = format!("{path}({})", desc.join(", "));
-                match &got {
-                    Ok(v) => {
-                        if !belongs(v, &rty) || !v.as_type().matches(&ft.return_type) {
-                            acc.violations.push(Violation {
-                                sig: format!("C18|result-not-in-declared-type|{path}"),
-                                detail: json!({"kind": "stdlib", "call": label, "declared_result": rty.print(), "observed": canon_typed(v)}),
-                            });
-                        }
-                        acc.outcomes.insert(canon(v).chars().take(12).collect());
-                        if let Some(want) = reference(path, &args) {
-                            acc.with_reference += 1;
-                            if canon(v) != want {
-                                acc.violations.push(Violation {
-                                    sig: format!("C18|wrong-result|{path}"),
-                                    detail: json!({"kind": "stdlib", "call": label, "expected": want, "observed": canon(v)}),
-                                });
+                judge_call(acc, path, f, &ft.return_type, &rty, args, label);
+            }
+            // ladders: every int (float) parameter in turn over the int (float) ladder, the other
+            // parameters over their first candidates
+            let ladders: [Vec<Variable>; 2] = [int_ladder().into_iter().map(Variable::Int).collect(), float_ladder().into_iter().map(Variable::Float).collect()];
+            for (p, ladder) in (0..ptys.len()).flat_map(|p| ladders.iter().map(move |l| (p, l))) {
+                if !belongs(&ladder[0], &ptys[p]) {
+                    continue;
+                }
+                let others: Vec<usize> = (0..ptys.len()).map(|q| if q == p { 1 } else { cands[q].len().min(3) }).collect();
+                let combos: usize = others.iter().product();
+                for l in ladder.iter() {
+                    for k in 0..combos {
+                        let mut kk = k;
+                        let mut args = Vec::new();
+                        let mut desc = Vec::new();
+                        let mut ok = true;
+                        for q in 0..ptys.len() {
+                            if q == p {
+                                args.push(l.clone());
+                                desc.push(canon(l));
+                                continue;
                             }
+                            let (d, idx) = &cands[q][kk % others[q]];
+                            kk /= others[q];
+                            match if *idx >= 0 { values.make(*idx as usize) } else { Some(extra[(-*idx - 1) as usize].clone()) } {
+                                Some(v) => args.push(v),
+                                None => ok = false,
+                            }
+                            desc.push(d.clone());
+                        }
+                        if ok {
+                            acc.ladder_calls += 1;
+                            let label = format!("{path}({})", desc.join(", "));
+                            judge_call(acc, path, f, &ft.return_type, &rty, args, label);
                         }
                     }
-                    Err(e) if e == "exhausted" => {}
-                    Err(e) => acc.violations.push(Violation {
-                        sig: format!("C18|call-failed|{path}|{}", e.chars().take(60).collect::<String>()),
-                        detail: json!({"kind": "stdlib", "call": label, "observed": e}),
-                    }),
                 }
             }
         },
@@ -486,6 +526,7 @@ pub fn run(tier: &str) -> i32 {
     let mut acc = Acc::default();
     for (a, _, _) in accs {
         acc.calls += a.calls;
+        acc.ladder_calls += a.ladder_calls;
         acc.with_reference += a.with_reference;
         acc.outcomes.extend(a.outcomes);
         acc.violations.extend(a.violations);
@@ -493,6 +534,42 @@ pub fn run(tier: &str) -> i32 {
             *acc.per_fn.entry(k).or_insert(0) += v;
         }
     }
+    (acc, n_fns)
+}
+
+pub fn run(tier: &str) -> i32 {
+    let thorough = tier == "thorough";
+    let mut report = Report::new("C18", tier);
+    let mut samples = Samples::new(10);
+    crate::warm::warm();
+    let ex = exports();
+    let n_exports = ex.len();
+    // constants have their declared types and values
+    for (path, v) in &ex {
+        let want = match path.as_str() {
+            "std.math.MIN_INT" => Some(i64::MIN.to_string()),
+            "std.math.MAX_INT" => Some(i64::MAX.to_string()),
+            "std.math.E" => Some(float_canon(std::f64::consts::E)),
+            "std.math.PI" => Some(float_canon(std::f64::consts::PI)),
+            _ => None,
+        };
+        match (v, want) {
+            (Variable::Function(_), _) => {}
+            (other, Some(w)) => {
+                if canon(other) != w {
+                    report.violation(Violation {
+                        sig: format!("C18|constant-value|{path}"),
+                        detail: json!({"kind": "stdlib", "export": path, "expected": w, "observed": canon(other)}),
+                    });
+                }
+            }
+            (other, None) => report.violation(Violation {
+                sig: format!("C18|unexpected-non-function-export|{path}"),
+                detail: json!({"kind": "stdlib", "export": path, "value": canon_typed(other)}),
+            }),
+        }
+    }
+    let (acc, n_fns) = sweep(&ex, thorough);
     // operators.* equal the built-in operators
     let ops_v = core::on_big_stack(|| {
         let mut out = Vec::new();
@@ -541,7 +618,7 @@ pub fn run(tier: &str) -> i32 {
     samples.push(|| json!({"call": "std.math.ilog(8, 2)", "expected": "3"}));
     samples.push(|| json!({"call": "std.string.split(\"aXbXc\", \"X\")", "expected": "[\"a\", \"b\", \"c\"]"}));
     samples.push(|| json!({"fs_transition": fs.sample}));
-    let Acc { calls, with_reference, outcomes, violations, per_fn } = acc;
+    let Acc { calls, ladder_calls, with_reference, outcomes, violations, per_fn } = acc;
     report.violations(violations);
     let min_calls = per_fn.values().min().copied().unwrap_or(0);
     let coverage = json!({
@@ -551,6 +628,7 @@ pub fn run(tier: &str) -> i32 {
         "exports": n_exports,
         "functions_swept": n_fns,
         "calls": calls,
+        "of_which_ladder_calls (each int parameter over 2^k - 1, 2^k, 2^k + 1 and negations, k = 0..63; each float parameter over +-2^k, its neighbours and half-way points, k = -3..64, zeros, infinities, NaN, extremes)": ladder_calls,
         "min_calls_per_function": min_calls,
         "calls_compared_with_reference_results": with_reference,
         "operator_equivalence_cases": ops_v.1,
